@@ -159,6 +159,24 @@ where
                     if succinct && s < best { best = s; best_rows = 1 << j; }
                     j += 1;
                 }
+                // in EVERY regime: never more column openings than the codeword has positions — the proof is at most
+                // the whole encoded matrix with one authentication path per column (largest such shape)
+                let mut whole = 0usize;
+                let mut j2 = 0;
+                while (1usize << j2) <= n_coeffs.next_power_of_two() {
+                    let n_rows = 1usize << j2;
+                    let n_cols = (n_coeffs + n_rows - 1) / n_rows;
+                    let mut n_ext = (n_cols as f64 * rate).ceil() as usize;
+                    if pow2_ext { n_ext = n_ext.next_power_of_two(); }
+                    let depth = (n_ext.next_power_of_two()).trailing_zeros() as usize;
+                    let path = 8 + 32 + 8 + depth.saturating_sub(1) * 32 + 8;
+                    let v = 8 + n_cols * FR;
+                    whole = whole.max(8 + n_ext * path + v + 8 + n_ext * (8 + n_rows * FR) + 1 + v);
+                    j2 += 1;
+                }
+                if actual > whole {
+                    fail(ctx, &id, name, format!("N={} proof {}B is larger than the whole encoded matrix with a path per column in its largest shape ({}B): more column openings than codeword positions", n_coeffs, actual, whole));
+                }
                 if best == usize::MAX {
                     ctx.rep.count(&format!("{}/below-succinct-regime", name));
                     ctx.rep.case(&format!("{} N={} comm={}B proof={}B (every shape opens the whole codeword)", name, n_coeffs, c, actual), Some(format!("{}/{}", name, n_coeffs)));
